@@ -650,7 +650,7 @@ func (x *Exec) execBuiltin(fr *Frame, st *State, b *ssa.Builtin, cc *ssa.CallCom
 		case VScalar:
 			switch cc.Args[0].Type().Underlying().(type) {
 			case *types.Map:
-				x.guardCheck(st, x.mapGuard(v.T), false, pos, "len of the map")
+				x.guardCheck(st, x.mapGuardT(st, v.T, cc.Args[0].Type()), false, pos, "len of the map")
 				return VScalar{x.mapLen(st, cc.Args[0].Type(), v.T)}
 			case *types.Chan:
 				r := x.fresh("chanlen", SInt)
@@ -683,7 +683,7 @@ func (x *Exec) execBuiltin(fr *Frame, st *State, b *ssa.Builtin, cc *ssa.CallCom
 		return x.execCopy(fr, st, cc, pos)
 	case "delete":
 		m := arg(0).(VScalar).T
-		x.guardCheck(st, x.mapGuard(m), true, pos, "delete from the map")
+		x.guardCheck(st, x.mapGuardT(st, m, cc.Args[0].Type()), true, pos, "delete from the map")
 		x.mapDelete(st, cc.Args[0].Type(), m, x.keyTerm(arg(1)))
 		return nil
 	case "close":
